@@ -264,6 +264,26 @@ func execAD(auth bool, user, pass string, stream []byte, sizes []int, tailErr bo
 	return cs, obs
 }
 
+// execADC: the whole handleSocksConnection (the adapter of the harness has no session attached).
+func execADC(auth bool, user, pass string, stream []byte, sizes []int, tailErr bool) (string, string) {
+	tb := newTables()
+	tb.scan(stream)
+	a := "0"
+	if auth {
+		a = "1"
+	}
+	cs := vc.Join("adc", a, vc.Hex([]byte(user)), vc.Hex([]byte(pass)), tailStr(tailErr), tb.String(), "st", vc.Hex(stream), sizesStr(sizes))
+	if auth && (user == "" || pass == "") {
+		return cs, "bad-config"
+	}
+	obs := guarded(func() string {
+		conn := &closeConn{fakeConn: fakeConn{r: vc.NewChunkReader(stream, sizes, tailErr)}}
+		adapterFor(auth, user, pass).VerifHandleSocksConnection(conn)
+		return "w " + vc.Hex(conn.w.Bytes()) + " left " + strconv.Itoa(conn.r.Remaining()) + " closed " + b01(conn.closed)
+	})
+	return cs, obs
+}
+
 var udpStages = []struct{ msg, st string }{
 	{"packet too short for IPv4", "short4"}, {"packet too short for domain name", "shortname"},
 	{"packet too short for domain", "shortdom"}, {"packet too short for IPv6", "short6"},
@@ -311,7 +331,8 @@ func execUBP(host string, port int, payload []byte) (string, string) {
 // ---- one executor for case strings (generators and corpus both end here)
 
 type emitter struct {
-	out *vc.Out
+	out  *vc.Out
+	adcN int
 }
 
 func obsClass(obs string) string {
@@ -355,6 +376,11 @@ func (e *emitter) ad(auth bool, user, pass string, stream []byte, sizes []int, t
 		m = "ad1"
 	}
 	e.emit("", m, cs, obs, kind)
+	e.adcN++
+	if e.adcN%5 == 0 { // every fifth stream also through the real per-connection function
+		cs, obs := execADC(auth, user, pass, stream, sizes, tailErr)
+		e.emit("", "adc", cs, obs, kind)
+	}
 }
 func (e *emitter) udp(data []byte, kind string) {
 	cs, obs := execUDP(data)
@@ -458,6 +484,16 @@ func (e *emitter) execLine(line string) error {
 		}
 		cs, obs := execAD(toks[1] == "1", string(vc.UnHex(toks[2])), string(vc.UnHex(toks[3])), st, sizes, toks[4] == "err")
 		e.emit(prefix, "ad"+toks[1], cs, obs, "corpus")
+	case "adc":
+		if len(toks) < 5 {
+			return errors.New("short adc case")
+		}
+		st, sizes, err := parseStreamToks(toks[5:])
+		if err != nil {
+			return err
+		}
+		cs, obs := execADC(toks[1] == "1", string(vc.UnHex(toks[2])), string(vc.UnHex(toks[3])), st, sizes, toks[4] == "err")
+		e.emit(prefix, "adc", cs, obs, "corpus")
 	case "udp":
 		if len(toks) != 3 || toks[1] != "d" {
 			return errors.New("udp d <hex> expected")
@@ -474,12 +510,24 @@ func (e *emitter) execLine(line string) error {
 		}
 		cs, obs := execUBP(string(vc.UnHex(toks[2])), p, vc.UnHex(toks[6]))
 		e.emit(prefix, "ubp", cs, obs, "corpus")
-	case "relay":
-		mode, ds, err := parseRelayToks(toks)
+	case "conn", "live":
+		cfg, st, sizes, tailErr, err := parseConnToks(toks)
 		if err != nil {
 			return err
 		}
-		cs, obs := execRelay(mode, ds)
+		if toks[0] == "live" {
+			cs, obs := execLive(cfg, st, sizes)
+			e.emit(prefix, "live", cs, obs, "corpus")
+		} else {
+			cs, obs := execConn(cfg, st, sizes, tailErr)
+			e.emit(prefix, "conn", cs, obs, "corpus")
+		}
+	case "relay":
+		mode, dns, ds, err := parseRelayToks(toks)
+		if err != nil {
+			return err
+		}
+		cs, obs := execRelay(mode, dns, ds)
 		e.emit(prefix, "relay-"+mode, cs, obs, "corpus")
 	default:
 		return errors.New("unknown mode " + toks[0])
@@ -523,6 +571,7 @@ func main() {
 		genUDP(e, r.Fork(), thorough)
 		genBuild(e, r.Fork(), thorough)
 		genRelay(e, r.Fork(), thorough)
+		genConn(e, r.Fork(), thorough)
 	}
 	e.out.Finish(*stats, nil)
 }
